@@ -67,6 +67,32 @@ CLAIMED["C11"] = {
     "note": "Iterators are modelled as positions in the active container; the std::variant alternative mismatch itself is observed by the driver (returned iterator neither end() nor an element), not modelled.",
     "design": "5 C11"}
 
+CLAIMED["C02"] = {
+    "technique": "Coq proofs over slot-level models (every slot Out|Raw|Live|Moved, primitives return lifetime-error values) of the element-moving helpers + identity-carrying element types and ASan/UBSan on the implementation over all vector and set histories",
+    "text": "PARTIAL. Theorems of coq/Properties_C02.v, for every size, capacity, position, count, value: insert(pos,count,v) (shift_right(count)+fill_after_shift), insert(pos, own element) in both aliasing branches, and erase(first,last) of a non-empty range, for element types that are not trivially relocatable, execute without any lifetime error (no construct over a live object, no assignment/destroy/read of a dead one, nothing outside the block), leave slots [0,size) live and not moved-from and [size,cap) raw - so every object exists exactly once - and produce the std::vector result; the memory algorithms pick a raw byte copy only for categories that allow it (C02_bitwise_only_when_allowed; relocation itself: C15). What the theorems do not cover (trivially-relocatable overloads, whole histories, sets) is decided on the implementation: element types carrying their own identity and address (a bitwise move of a non-relocatable element is caught at its next use), per-object status ledger (double destroy, use outside lifetime, self-move-assignment), live count = sum of sizes after every step and 0 at the end, visible elements never moved-from, under ASan/UBSan, over the systematic and random histories of C01 (20 vector configurations) and of the instrumented set configurations.",
+    "note": "Alignment, strict aliasing and the byte overlay of heap pointer and first inline slot are outside the model (sanitizers support, do not prove). The slot models are hand-written from the helper code; their tie to the code is the event/ledger behaviour observed by the driver, not a lock-step comparison.",
+    "design": "5 C02"}
+CLAIMED["C05"] = {
+    "technique": "Coq proof over the vector model (an inline SmallVector stays inline, capacity N, no allocator event, for every operation whose result fits N; FixedCapacityVector has no allocator event at all) + lock-step correspondence (storage class, capacity, allocator events) + allocation counters on the implementation",
+    "text": "Theorems of coq/Properties_C05.v for every N, size_type maximum, element category, allocator kind: C05_smallvector_inline_promise (any growing/erasing/assigning operation, ranges incl. single-pass, copy assignment: if the vector is inline and the resulting size is within N it stays inline, reports capacity N and the operation's allocator-event list is empty), C05_inline_pairs (move assignment between two inline SmallVectors keeps both inline, no event - the lemma the historic move-assignment defect broke), C05_fixedcapacity_never_allocates. Tie: the model's storage class, capacity word and allocator events are compared step by step with the implementation (data() inside the object, capacity(), ledger allocator events) on histories generated inside and across the inline region; the driver's own ghost 'tainted' flag evaluates the promise directly, allocator and operator new counters included; SmallSet: allocator requests while every set is inline are flagged by the set driver.",
+    "note": "That an empty std::set allocates nothing is a libstdc++ fact (observed). swap / swap2 between inline vectors: covered by correspondence and C13's lemmas rather than a C05 theorem.",
+    "design": "5 C05"}
+CLAIMED["C06"] = {
+    "technique": "Coq proofs per storage-base function that the emitted allocator events transform the owned blocks correctly (ledger interpretation), Reallocate dispatch by definition + lock-step correspondence of allocator event lists + ledger allocators on the implementation (vectors and sets)",
+    "text": "PARTIAL. Theorems of coq/Properties_C06.v: C06_reallocate_dispatch (allocator reallocate only for trivially relocatable types with an allocator offering it, with true old capacity and live count; otherwise allocate + deallocate(old capacity)), C06_grow_ledger (growth returns the old block with the capacity it was obtained with and owns exactly the new one; deallocate(nullptr,0) of an empty amc::vector is a no-op), C06_free_ledger, C06_move_assign_ledger (the target's old block is returned, the source's block changes owner with the capacity word, nothing allocated or left). Composition over whole operations and histories: the model's event list of EVERY step is compared with the implementation's (kinds, element counts, live counts) in the lock-step correspondence, and the drivers' ledger allocators (pointer -> count; unknown/double free, size mismatch, realloc for a non-relocatable type, blocks outstanding after all containers are gone) decide the protocol directly over all vector and set configurations (four allocator kinds).",
+    "note": "Allocators in scope are stateless / all-instances-equal (the library never propagates an allocator object). Ownership transfer through swap2 buffer exchange, FlatSet(vector&&), steal_vector: by correspondence and ledger, not by theorem.",
+    "design": "5 C06"}
+CLAIMED["C07"] = {
+    "technique": "Coq proof over the vector model (size <= capacity <= max_size in every reachable state; capacity monotone and no reallocation when the result fits, for every growing-policy operation; reserve; buffer hand-over on move/swap) + lock-step correspondence + data()/capacity()/element identity oracles",
+    "text": "Theorems of coq/Properties_C07.v for every flavour and configuration: C07_size_capacity_max (every reachable state), C07_fits_no_reallocation (every single-container operation through the growing policy never decreases capacity, and when the resulting size fits the capacity before the call, capacity and storage are unchanged and the allocator-event list is empty), C07_reserve (capacity >= n, contents unchanged), C07_move_hands_over_buffer (move from a heap-backed vector: the target takes the source's words, nothing allocated, source left without heap block), C07_swap_exchanges_buffers. Tie: capacity, storage class and allocator events compared step by step; on the implementation data(), capacity(), the identity of every element before the insertion/erasure point and the element-operation counters (zero on buffer hand-over) are checked after every step.",
+    "note": "'References before the point of insertion stay valid' is a statement about element addresses; the model gives 'same block', the slot-level lemmas (Slots.v) that slots below the position are untouched, and the driver compares element identities.",
+    "design": "5 C07"}
+CLAIMED["C10"] = {
+    "technique": "Coq proof at slot level (insert with a reference to an own element, read when the code reads it, both branches of the aliasing test) + operation-model lemma (own argument = its value) + complete small-scope aliasing grid in lock-step with the model and against std::vector under ASan",
+    "text": "Theorems of coq/Properties_C10.v: C10_insert_own_element_slot_level (for every size, position and source index - before, at or after the insertion point - the result is std::vector's, with no lifetime error; Alias.insert_own_old_refuted shows the pre-repair order fails), C10_model_own_argument_as_if_copied (push_back, insert, insert(count), emplace, emplace_back, resize(n,v), assign(n,v), append(n,v) with an own-element argument are the same model step as with the external value). Tie: the complete grid (size <= 5, every position, source index, count <= 3, spare capacity or not, lvalue and rvalue forms) on all 20 vector configurations is compared step by step with the model and with std::vector doing the same aliased call, under ASan (a dangling reference after reallocation is a sanitizer verdict).",
+    "note": "Slot-level theorem for the single-element insert of non-relocatable types; the other operations are covered at model level + exhaustive correspondence. For rvalue references to own elements the moved-from source value is unspecified and not compared.",
+    "design": "5 C10"}
+
 REASONS = {}
 
 
